@@ -46,17 +46,19 @@ Proof. exact close_on_leave_all. Qed.
 Theorem C05_up_down_alternate : forall es, over_alphabet es -> check_updown mon0 (run init es) = true.
 Proof. exact up_down_all. Qed.
 
-(* the peer task never waits on one transport while the session owns another one (what D13 violated:
-   an accepted connection was never served because the suspended attempt kept the closed one) *)
+(* the peer task never waits on one transport while the session owns another one (what the defect D13
+   violated: an accepted connection was never served because the suspended attempt kept the closed one) *)
 Theorem C05_reads_own_transport : forall es, over_alphabet es -> reads_own (final init es) = true.
 Proof. exact reads_own_transport. Qed.
 
-(* non-vacuity: a session that establishes, exchanges, is refused a collision, and is torn down; the
-   checkers accept its trace, and they reject the traces that break each clause *)
+(* non-vacuity: a session that establishes, exchanges, is refused a collision and is torn down meets the
+   hypothesis; the model gives its trace; the checkers reject traces that break each clause *)
+Definition C05_es : list event :=
+  [Tick; ConnectOk; Recv OpenOk; Recv Keepalive; Tick; Recv UpdateOk; Incoming true; Teardown 4; Tick].
+
 Example C05_example :
-  let es := [Tick; ConnectOk; Recv OpenOk; Recv Keepalive; Tick; Recv UpdateOk; Incoming true; Teardown 4; Tick] in
-  over_alphabet es
-  /\ run init es =
+  over_alphabet C05_es
+  /\ run init C05_es =
      [(Tick, [Fsm Idle Active; Fsm Active Idle]);
       (ConnectOk, [ApiConnected; Fsm Idle Connect; Write WOpen; Fsm Connect OpenSent]);
       (Recv OpenOk, [Fsm OpenSent OpenConfirm; Write WKeepalive]);
@@ -73,9 +75,21 @@ Example C05_example :
   /\ check_close mon0 [(ConnectOk, [ApiConnected; Fsm Idle Connect]); (Eof, [Fsm Connect Idle])] = false
   /\ check_updown mon0 [(Tick, [ApiUp; ApiUp])] = false.
 Proof.
-  cbv zeta. split; [|vm_compute; repeat split].
-  unfold over_alphabet. repeat constructor; vm_compute; tauto.
+  split; [apply over_alphabet_dec; vm_compute; reflexivity|].
+  vm_compute. repeat split.
 Qed.
+
+(* the accepted-connection scenario of D13: OPENSENT, incoming connection accepted, the attempt is
+   abandoned and the accepted transport is served *)
+Example C05_example_collision :
+  run init [Tick; ConnectOk; Incoming true; Tick; Recv OpenOk; Recv Keepalive] =
+    [(Tick, [Fsm Idle Active; Fsm Active Idle]);
+     (ConnectOk, [ApiConnected; Fsm Idle Connect; Write WOpen; Fsm Connect OpenSent]);
+     (Incoming true, [ApiDown; Fsm OpenSent Idle; CloseTransport; ApiConnected]);
+     (Tick, [Fsm Idle Active; Fsm Active Idle; Fsm Idle Connect; Write WOpen; Fsm Connect OpenSent]);
+     (Recv OpenOk, [Fsm OpenSent OpenConfirm; Write WKeepalive]);
+     (Recv Keepalive, [Fsm OpenConfirm Established; ApiUp])].
+Proof. vm_compute. reflexivity. Qed.
 
 Print Assumptions C05_rfc_transitions.
 Print Assumptions C05_transitions_chain.
